@@ -168,12 +168,14 @@ def check(run):
                 oracle_fail.append((cfg, l, e, o))
         # raw values read through the typed accessors (as<MsgPackBinary>() / as<MsgPackExtension>() / is<>()): every bin / ext
         # encoding, their truncations (a header cut short must not be read past), and arbitrary raw bytes
-        rlines = []
+        rlines, rexp = [], {}
         for n_ in (0, 1, 2, 3, 4, 5, 8, 9, 16, 17, 255, 256, 300):
             pl = bytes(rnd.randrange(256) for _ in range(n_))
             for v in (("bin", pl), ("ext", rnd.randrange(256), pl)):
                 enc = gen_doc.mp_encode(v, rnd)
                 rlines.append("RX " + hx(enc))
+                # what the accessors must give back is known from the value that was encoded, whatever width the encoder chose
+                rexp[rlines[-1]] = (f"bin=s{hx(pl)} ext=-" if v[0] == "bin" else f"bin=- ext={v[1]}:s{hx(pl)}")
                 for k in sorted(set([1, 2, 3, 4, 5, 6, len(enc) - 1])):
                     if 0 < k < len(enc):
                         rlines.append("RX " + hx(enc[:k]))
@@ -190,6 +192,8 @@ def check(run):
         for l, o in zip(rlines, ioR):
             if o != "<crash>" and "DIFFERS" in o:
                 oracle_fail.append((cfg, l, "is<T>() agrees with as<T>()", o[:200]))
+            elif o != "<crash>" and l in rexp and not o.startswith(rexp[l]):
+                oracle_fail.append((cfg, l, "the typed accessor returns the encoded payload: " + rexp[l][:120], o[:200]))
         run.sample(dict(case=lines[0][:160], cfg=cfg, meaning="M <nesting> <filter> <hex MessagePack> -> code, bytes consumed, document"))
     run.cov["rule"] = ("values encoded by an independent encoder with random legal widths (non-minimal ints/lengths, float32/64, bin, ext, "
                        "duplicate and NUL-containing keys), expected document computed from the value; all proper prefixes; single-byte "
